@@ -28,6 +28,8 @@ type Finding struct {
 	ID        string `json:"id"`
 	Status    string `json:"status"` // open | fixed
 	Signature string `json:"signature"`
+	// Signatures lists further signatures of the same root cause.
+	Signatures []string `json:"signatures,omitempty"`
 	WhatFails string `json:"what_fails"`
 	Commit    string `json:"commit,omitempty"`
 }
@@ -65,9 +67,10 @@ func loadKnown() {
 func KnownFinding(sig string) *Finding {
 	knownOnce.Do(loadKnown)
 	for i := range knownOpen {
-		k := knownOpen[i].Signature
-		if k == sig || (strings.HasSuffix(k, "*") && strings.HasPrefix(sig, strings.TrimSuffix(k, "*"))) {
-			return &knownOpen[i]
+		for _, k := range append([]string{knownOpen[i].Signature}, knownOpen[i].Signatures...) {
+			if k == sig || (strings.HasSuffix(k, "*") && strings.HasPrefix(sig, strings.TrimSuffix(k, "*"))) {
+				return &knownOpen[i]
+			}
 		}
 	}
 	return nil
